@@ -312,6 +312,30 @@ static void run_case(uint64_t idx, void *ctx)
     mc_nontrivial();
     mc_outcome(idx);
 }
+/* ---- every byte value at every position of a 24-byte buffer, at every alignment of its start: safe_str, upcase_str and downcase_str are byte-by-byte maps */
+static void bs_desc(uint64_t idx, void *ctx, char *b, size_t n) { (void) ctx; snprintf(b, n, "byte 0x%02x at position %d of \"ABCDefgh@[`{Zz09\\t\\n....\" (start at offset %d of an 8-aligned block), followed by 'Z': safe_str(24), upcase_str, downcase_str", (int) (idx % 256), (int) ((idx / 256) % 20), (int) (idx / 256 / 20)); }
+static void bs_case(uint64_t idx, void *ctx)
+{
+    mc_strings_prelude();
+    int c = (int) (idx % 256), pos = (int) ((idx / 256) % 20), off = (int) (idx / 256 / 20); (void) ctx;
+    const char *shape = c >= 0x80 ? "byte above 0x7f" : (c < 0x20 || c == 0x7f ? "control byte" : "printable byte"); mc_set_shape(shape);
+    static const unsigned char base[25] = "ABCDefgh@[`{Zz09\t\n\x7f\xc1\xe9\xdb@Z";
+    unsigned char ref[25]; memcpy(ref, base, 25); ref[pos] = (unsigned char) c; if (pos + 1 < 24) ref[pos + 1] = 'Z';
+    for (int fn = 0; fn < 3; fn++) {
+        if (fn && memchr(ref, 0, 24)) continue;                         /* the case functions work on C strings */
+        unsigned char *blk = malloc(8 + 25 + 8), *b = blk; while (((uintptr_t) b & 7) != 0) b++; b += off;
+        memcpy(b, ref, 25); b[24] = fn ? 0 : '#';
+        unsigned char exp[25]; memcpy(exp, b, 25);
+        for (int i = 0; i < 24; i++) exp[i] = fn == 0 ? (iscntrl(exp[i]) ? '.' : exp[i]) : (unsigned char) (fn == 1 ? toupper(exp[i]) : tolower(exp[i]));
+        spif_charptr_t r = fn == 0 ? spiftool_safe_str((spif_charptr_t) b, 24) : (fn == 1 ? spiftool_upcase_str((spif_charptr_t) b) : spiftool_downcase_str((spif_charptr_t) b));
+        static const char *nm[3] = { "spiftool_safe_str", "spiftool_upcase_str", "spiftool_downcase_str" };
+        if (r != (spif_charptr_t) b) FAIL(nm[fn], "model:return", shape, "did not return its argument");
+        if (memcmp(b, exp, 25)) { int d = 0; while (b[d] == exp[d]) d++; FAIL(nm[fn], "model:content", shape, "byte %d is 0x%02x, the byte-by-byte map gives 0x%02x (input byte 0x%02x, start at offset %d)", d, b[d], exp[d], ref[d], off); }
+        free(blk);
+    }
+    mc_nontrivial();
+    mc_outcome((uint64_t) c);
+}
 int main(int argc, char **argv)
 {
     mc_init("C13", argc, argv);
@@ -330,6 +354,7 @@ int main(int argc, char **argv)
     { uint64_t w = (uint64_t) (2 * (L + 2) + 1); mc_e2_level("substr", L, (uint64_t) (L + 1) * w * w, sub_case_fn, sub_desc, NULL); }
     for (g_len = 0; g_len <= L; g_len++)
         if (!mc_e2_level("inplace", g_len, mc_words_of_len(NSYM, g_len), inpl_case_fn, inpl_desc, NULL)) break;
+    mc_e2_level("byte_sweep", 24, (uint64_t) 256 * 20 * 8, bs_case, bs_desc, NULL);
     mc_e2_level("inplace_runs", 65537, (uint64_t) NRUNS * 6 * 4, run_case, run_desc, NULL);
     g_big = 1;
     mc_e2_level("safe_strncpy_big", 65537, (uint64_t) NBIGS * 4, cpy_case_fn, cpy_desc, NULL);
